@@ -290,14 +290,15 @@ ASMJIT_FAVOR_SIZE Error FuncArgsContext::mark_scratch_regs(FuncFrame& frame) noe
   for (RegGroup group : Support::enumerate(RegGroup::kMaxVirt)) {
     if (Support::bit_test(group_mask, group)) {
       WorkData& wd = _work_data[group];
-      if (wd._needs_scratch) {
-        // Initially, pick some clobbered or dirty register.
+      if (wd._needs_scratch || Support::bit_test(_stack_dst_mask, group)) {
+        // Initially, pick some clobbered or dirty register (never one that holds an argument or the SA pointer - stack
+        // destinations are written first, while all of them are still live).
         RegMask work_regs = wd.work_regs();
-        RegMask regs = work_regs & ~(wd.used_regs() | wd._dst_shuf);
+        RegMask regs = work_regs & ~(wd.used_regs() | wd._dst_shuf | wd.assigned_regs());
 
         // If that didn't work out pick some register which is not in 'used'.
         if (!regs) {
-          regs = work_regs & ~wd.used_regs();
+          regs = work_regs & ~(wd.used_regs() | wd.assigned_regs());
         }
 
         // If that didn't work out pick any other register that is allocable.
